@@ -3,6 +3,7 @@ Helper function to convert L{docutils} nodes to Stan tree.
 """
 from __future__ import annotations
 
+import os.path
 import re
 import optparse
 from typing import Any, Callable, ClassVar, Iterable, List, Optional, Union, TYPE_CHECKING
@@ -225,6 +226,22 @@ class HTMLTranslator(html4css1.HTMLTranslator):
                 tag = 'pre' if isinstance(node, nodes.math_block) else 'tt'
                 self.body[start:] = [self.starttag(node, tag, '', CLASS='math'),
                                      self.encode(node.astext()), f'</{tag}>']
+
+    def visit_image(self, node: nodes.Node) -> None:
+        # For the images it embeds with an <object> element (svg, swf, mp4...), html4css1 writes the alternate
+        # text (the URI when there is none) between the tags as it is: give it the text escaped.
+        if os.path.splitext(node['uri'])[1].lower() in self.object_image_types:
+            alt = node.get('alt')
+            node['alt'] = self.encode(node.get('alt', node['uri']))
+            try:
+                super().visit_image(node)
+            finally:
+                if alt is None:
+                    del node['alt']
+                else:
+                    node['alt'] = alt
+        else:
+            super().visit_image(node)
 
     def visit_doctest_block(self, node: nodes.Node) -> None:
         pysrc = node[0].astext()
